@@ -68,6 +68,7 @@ type scenario struct {
 	resolved     *resolved.Schema
 	dirtyEntJSON []byte // another entity map / request, decoded first into reused receivers
 	dirtyReqJSON []byte
+	schema2      *fixtures.Schema // another schema, held by a reused Schema value before
 }
 
 var dirtyRecord = types.NewRecord(types.RecordMap{"role": types.String("admin"), "a": types.Long(7)})
@@ -195,6 +196,7 @@ func genScenario(r *core.Run) *scenario {
 		db.WriteString("\n")
 	}
 	sc.doc = db.Bytes()
+	sc.schema2 = fixtures.Pick(r.T)
 	sc.schema = fixtures.Pick(r.T)
 	if sc.schema != nil {
 		var s schema.Schema
@@ -469,6 +471,42 @@ func observe(r *core.Run, sc *scenario, canonical bool) (out []obs, permuted boo
 					b2, _ := json.Marshal(d2)
 					if !bytes.Equal(b1, b2) && direct == nil {
 						direct = core.Violationf("decode-depends-on-receiver", "decode-depends-on-receiver:Record", "decoding %s into a fresh Record and into a used one gives different results: %s vs %s", js, b1, b2)
+					}
+				}
+			}
+		}
+	}
+
+	// a Schema value that held (and encoded) another schema before gives the same encodings as
+	// a fresh one
+	if sc.schema != nil && sc.schema2 != nil && sc.schemaJS != nil {
+		var fresh, used schema.Schema
+		if fresh.UnmarshalJSON(sc.schemaJS) == nil && used.UnmarshalCedar(sc.schema2.Cedar) == nil {
+			_, _ = used.MarshalCedar()
+			_, _ = used.MarshalJSON()
+			_, _ = used.Resolve()
+			if used.UnmarshalJSON(sc.schemaJS) == nil {
+				c1, e1 := fresh.MarshalCedar()
+				c2, e2 := used.MarshalCedar()
+				j1, e3 := fresh.MarshalJSON()
+				j2, e4 := used.MarshalJSON()
+				if e1 == nil && e2 == nil && e3 == nil && e4 == nil && (!bytes.Equal(c1, c2) || !bytes.Equal(j1, j2)) && direct == nil {
+					direct = core.Violationf("decode-depends-on-receiver", "decode-depends-on-receiver:Schema", "decoding schema %s (JSON) into a fresh Schema and into one that held %s before gives different encodings\n  fresh: %s\n  used:  %s", sc.schema.Name, sc.schema2.Name, clip(string(c1)), clip(string(c2)))
+				}
+			}
+			// and the other way round: Cedar text into a value that held JSON-decoded content
+			var used2 schema.Schema
+			if used2.UnmarshalJSON(sc.schemaJS) == nil {
+				_, _ = used2.MarshalJSON()
+				_, _ = used2.MarshalCedar()
+				var fresh2 schema.Schema
+				if used2.UnmarshalCedar(sc.schema2.Cedar) == nil && fresh2.UnmarshalCedar(sc.schema2.Cedar) == nil {
+					c1, e1 := fresh2.MarshalCedar()
+					c2, e2 := used2.MarshalCedar()
+					j1, e3 := fresh2.MarshalJSON()
+					j2, e4 := used2.MarshalJSON()
+					if e1 == nil && e2 == nil && e3 == nil && e4 == nil && (!bytes.Equal(c1, c2) || !bytes.Equal(j1, j2)) && direct == nil {
+						direct = core.Violationf("decode-depends-on-receiver", "decode-depends-on-receiver:Schema", "decoding schema %s (Cedar text) into a fresh Schema and into a used one gives different encodings", sc.schema2.Name)
 					}
 				}
 			}
